@@ -583,12 +583,12 @@ def _paths(stmts, conds=()):
     return out
 
 
-def check_build(ix, rep, f, opname, online=False, rule='R-SEGBUILD', slot_prefix='', origin=False):
+def check_build(ix, rep, f, opname, online=False, rule='R-SEGBUILD', slot_prefix='', origin=False, forms_out=None):
     """the influence interval b built for sample k and the initial filler segment"""
     slot = '%s%s' % (slot_prefix, opname)
     try:
         info = find_step(f.node)
-        n = _check_build(rep, f, opname, online, rule, slot, info, origin)
+        n = _check_build(rep, f, opname, online, rule, slot, info, origin, forms_out)
     except Shape as e:
         rep.error('%s (%s): %s; the kernel was decided on the pinned tree' % (f.where, f.qual, e))
         return 0
@@ -669,7 +669,7 @@ def _subst_alias(e, aliases, listname):
     return T().visit(copy.deepcopy(e))
 
 
-def _check_build(rep, f, opname, online, rule, slot, info, origin=False):
+def _check_build(rep, f, opname, online, rule, slot, info, origin=False, forms_out=None):
     names, facts, step, init_aff = _loop_setup(f, info)
     past = opname in ('once', 'historically')
     neutral = -1 if opname in MAXOPS else 1     # the filler value: -inf for max, +inf for min
@@ -711,6 +711,8 @@ def _check_build(rep, f, opname, online, rule, slot, info, origin=False):
                 if e0 != want0:
                     problems.append(('start', 'the influence interval of sample k starts at  %s  instead of  %s' % (ast.unparse(st.value.elts[0]), 'T[k] + begin' if past else 'T[k] - end'), st.lineno))
                 # end
+                if forms_out is not None:
+                    forms_out.append({'kind': 'segment', 'start': dict(e0), 'end': dict(e1), 'k': k, 'line': st.lineno})
                 tks = [q for q in e1 if isinstance(q, tuple) and q[0] == 'T']
                 if e1 == {'inf': Fraction(1)}:
                     form = 'inf'
@@ -748,6 +750,8 @@ def _check_build(rep, f, opname, online, rule, slot, info, origin=False):
                     problems.append(('filler', 'a future operator needs no filler segment', st.lineno))
                     continue
                 g0, g1, g2 = [_lin(x, names) for x in arg.elts]
+                if forms_out is not None:
+                    forms_out.append({'kind': 'filler', 'start': dict(g0), 'end': dict(g1), 'value': dict(g2), 'line': st.lineno})
                 first = tuple(sorted((str(kk), v) for kk, v in {}.items()))
                 if g1 != {('T', first): Fraction(1), 'begin': Fraction(1)} or g2 != {'inf': Fraction(neutral)} or g0 not in ({}, {('T', first): Fraction(1)}):
                     problems.append(('filler', 'the filler segment is %s instead of (T[0], T[0] + begin, %sinf)' % (ast.unparse(arg), '-' if neutral < 0 else ''), st.lineno))
